@@ -16,7 +16,7 @@ mkdir -p $OUT
 cp $M/$PF $OUT/patch.diff
 DEMOS=$(ls $M/*.rs 2>/dev/null | grep -v "twin\|must_not\|compile_fail\|nightly\|zz_race\|_uaf")
 # miri-race: demonstrations that need a particular interleaving, explored with Miri's seeded scheduler (zz_race*.rs only)
-if [ "$MODE" = "miri-race" ]; then DEMOS=$(ls $M/zz_race*.rs 2>/dev/null); fi
+if [ "$MODE" = "miri-race" ] || [ "$MODE" = "race-native" ]; then DEMOS=$(ls $M/zz_race*.rs 2>/dev/null); fi
 for d in $DEMOS; do cp $d tests/; cp $d $OUT/; done
 [ -f $M/README.md ] && cp $M/README.md $OUT/README.agent.md
 run_demo() {
